@@ -44,7 +44,7 @@ pub fn nonce(
     // Further, we use domain separation for the indexes to avoid collisions
     let mut key = Zeroizing::new(Vec::with_capacity(43)); // 1 + 32 + optional(1 + 4)  + optional(1 + 4)
     key.push(0u8); // Initialize the vector to enable 'append' (1 byte)
-    key.append(&mut seed_nonce.to_bytes().to_vec()); // Fixed length encoding of 'seed_nonce' (32 bytes)
+    key.extend_from_slice(seed_nonce.as_bytes()); // Fixed length encoding of 'seed_nonce' (32 bytes)
     if let Some(index) = index_j {
         key.append(&mut b"j".to_vec()); // Domain separated index label (1 byte)
         key.append(&mut encode_usize(index)?); // Fixed length encoding of 'index_j' (4 bytes)
